@@ -303,7 +303,7 @@ def analyse_call(ctx, cfg, events, views, ret, skip=None):
 def run_calls(ctx, exe, calls, db=DB, prelude=()):
     """calls: list of (cfg, input_text). One instance, one database load, then for each call: switches, run, views.
     Returns list of per-call analysis dicts (or a single {"crash":...})."""
-    script = ["new", f"load {hx(db)}"] + list(prelude)
+    script = shape_opts() + ["new", f"load {hx(db)}"] + list(prelude)
     for cfg, inp in calls:
         script += cfg_script(cfg) + [f"run {hx(inp)}", "views"]
     rc, out, err = run_script(ctx, exe, script)
@@ -629,7 +629,14 @@ def endrow_checks_user_punch():
 
 
 def build_trace_harness(ctx):
-    return ctx.build_harness("ph_trace", extra=(["-DB05_ENDROW_CHECKS_USER_PUNCH"] if endrow_checks_user_punch() else []))
+    """the harness binary is cached by name and time stamps, so nothing that depends on the source shape may be compiled in:
+    shape-dependent behaviour of the harness is selected at run time (see `shape_opts`)"""
+    return ctx.build_harness("ph_trace")
+
+
+def shape_opts():
+    """script lines sent at the start of every ph_trace script: run-time options that follow the shape of the source"""
+    return [f"opt endrow_user_punch {int(endrow_checks_user_punch())}"]
 
 
 def loop_is_hoisted():
@@ -934,7 +941,7 @@ def run_history(ctx, exe, inputs, cfgs, cells_cap=None, names=None, db=DB, noloa
     """one instance, the steps of a history: Run* calls with different inputs and switch changes in between, and
     (special inputs @LOAD_OK / @LOAD_MISSING / @LOADSTR_BAD) database loads that succeed or fail; `noload`: the instance
     starts without a database. Returns dict(calls=[per-step analysis], ...) or {"crash":...}"""
-    script = ["new"] + ([] if noload else [f"load {hx(db)}"])
+    script = shape_opts() + ["new"] + ([] if noload else [f"load {hx(db)}"])
     for k, v in (names or {}).items():
         if k[0] == "sel":
             script += [f"cur {k[1]}", f"fname sel {hx(v)}"]
